@@ -325,14 +325,9 @@ static void check_creader(const std::string &s)
 
 // ---------------------------------------------------------------- suites: one per routine family so that a crash
 // in one routine cannot hide the others; all walk the same enumeration
-static uint64_t n_enum() { return enum_cases(); }
-static void bulk(uint64_t idx)
-{
-    uint64_t lo = idx * enum_batch(), hi = lo + enum_batch(), tot = nstrings(enum_maxlen());
-    if (hi > tot)
-        hi = tot;
-    vf::count_bulk(hi - lo, lo == 0 ? hi - lo - 1 : hi - lo);
-}
+static uint64_t n_enum() { return enum_cases(true); }
+static uint64_t n_enum_exp() { return enum_cases(false); }
+static void bulk(uint64_t idx, bool cheap = true) { enum_bulk(idx, cheap); }
 static void split_run(uint64_t idx)
 {
     enum_run(idx, [](const std::string &s) {
@@ -363,10 +358,10 @@ static void memmem_run(uint64_t idx)
         if (vf::verbose())
             printf("  memmem haystack=\"%s\"\n", show(s).c_str());
         check_memmem(s);
-    });
-    bulk(idx);
+    }, false);
+    bulk(idx, false);
 }
-VF_SUITE(enum_memmem, n_enum, memmem_run)
+VF_SUITE(enum_memmem, n_enum_exp, memmem_run)
 static void replace_run(uint64_t idx)
 {
     uint64_t i = idx * enum_batch();
@@ -374,10 +369,10 @@ static void replace_run(uint64_t idx)
         if (vf::verbose())
             printf("  replace input=\"%s\"\n", show(s).c_str());
         check_replace(s, i++);
-    });
-    bulk(idx);
+    }, false);
+    bulk(idx, false);
 }
-VF_SUITE(enum_replace, n_enum, replace_run)
+VF_SUITE(enum_replace, n_enum_exp, replace_run)
 static void creader_run(uint64_t idx)
 {
     enum_run(idx, [](const std::string &s) {
